@@ -31,7 +31,7 @@ TECHNIQUE = (
     "exhaustive enumeration of populations over an individual alphabet {new, evaluated for p, evaluated for q, same "
     "object twice} x problems x sequences of <=3 evaluate / evaluate_async calls x evaluator (sequential, parallel on a "
     "virtual pool whose every task execution / completion order is enumerated by E1, parallel on the real pool as "
-    "conformance), against an append-only invocation log; GP runs whose steps re-present individuals"
+    "conformance), against an append-only invocation log; GP runs whose steps re-present individuals; every history of three Population constructions over two problems / trackers on shared individual objects (new, evaluated for one problem, stamped by an earlier run)"
 )
 RULE = (
     "history = (population over the alphabet, call sequence, evaluator, schedule); oracle: recorded fitness == f(program), "
